@@ -58,6 +58,12 @@ def var_kwargs(vs):
     return kw
 
 
+def fnum_dy(d):
+    from harness.dy import undy
+    v = undy(d)
+    return float(v)
+
+
 def fnum(x):
     """float of whatever a Variable / Operand returns (numpy 2 safe)."""
     a = np.asarray(x, dtype=float)
@@ -501,8 +507,11 @@ def one_run(tr, o, problem, case, opt, front_end, params, finish=False):
         return None, info
     rx = [float(v) for v in np.ravel(res.x)]
     rf = fnum(res.fun)
-    tr.emit("return", x=[dy(v) for v in rx], fun=dy(rf), nfev=int(getattr(res, "nfev", 0) or 0))
+    tr.emit("return", x=[dy(v) for v in rx], fun=dy(rf), nfev=int(getattr(res, "nfev", 0) or 0),
+            complete=bool(mine) and len(mine) <= MAX_EVAL_EVENTS and params.get("workers", 1) != -1)
     info["last_eval_is_returned"] = (mine[-1][0] == rx) if mine else None
+    info["x0"] = [fnum_dy(r["v"]) for r in vrows]
+    info["last_vals"] = mine[-1][2] if mine else None
     info["ret_x"] = rx
     info["ret_fun"] = rf
     info["last_eval"] = mine[-1][0] if mine else None
@@ -514,6 +523,15 @@ def one_run(tr, o, problem, case, opt, front_end, params, finish=False):
             pk=pickup_rows(o), sol=solve_rows(o), **merit_fields(problem))
     info["after_x"] = [fnum(v.value) for v in problem.variables]
     info["after_ss"] = fnum(problem.sum_squared())
+    # where the lens was left (classification of a violation TLC has decided, nothing more)
+    if mine and info["after_x"] == info["last_vals"]:
+        info["lens_left_at"] = "returned point" if info["last_eval_is_returned"] else "last in-process evaluation"
+    elif not mine and info["after_x"] == info["x0"]:
+        info["lens_left_at"] = "start (every evaluation was remote)"
+    elif info["after_x"] == rx:
+        info["lens_left_at"] = "returned point"
+    else:
+        info["lens_left_at"] = "elsewhere"
     return res, info
 
 
@@ -584,5 +602,5 @@ def classify(case, info):
            "has_pickup_or_solve": bool(case.get("made", {}).get("pickup") or case.get("made", {}).get("solve")),
            "index_var_on_dispersive_glass": case["family"] == "glass" and any(v["type"] == "index" for v in vs)}
     if info is not None:
-        cls["last_eval_is_returned"] = info.get("last_eval_is_returned")
+        cls["lens_left_at"] = info.get("lens_left_at")
     return cls
